@@ -215,7 +215,7 @@ def compared_queries(case, io):
     within the budget and the answer cap (the model is evaluated eagerly inside Coq)"""
     if not isinstance(io, dict) or 'queries' not in io:
         return list(range(len(case['queries'])))
-    return [i for i, iq in enumerate(io['queries']) if iq['end'] not in ('cap', 'budget') and not iq.get('findall_shared') and not iq.get('findall_big')]
+    return [i for i, iq in enumerate(io['queries']) if iq['end'] not in ('cap', 'budget') and not iq.get('findall_big')]
 
 def model_expr(case, io=None):
     """the model is given the same source TEXT as the implementation: its own front end (Lang/Front.v) reads it"""
@@ -256,14 +256,7 @@ def compare(case, io, mo):
     for qi, vs in zip(idx, views):
         q, iq = case['queries'][qi], io['queries'][qi]
         ir, sld = vs[0], vs[1]
-        if iq.get('findall_inner'):
-            # see watch_findall: identity of unbound variables is not compared for this query
-            iq = dict(iq, answers=anon_vars(iq['answers']))
-            ir = dict(ir, answers=anon_vars(ir['answers'])) if 'answers' in ir else ir
-            sld = dict(sld, answers=anon_vars(sld['answers'])) if 'answers' in sld else sld
         sldr = vs[2] if len(vs) > 2 else None
-        if sldr is not None and iq.get('findall_inner') and 'answers' in sldr:
-            sldr = dict(sldr, answers=anon_vars(sldr['answers']))
         qtxt = ast_io.term_text(['fun', q[0], q[1]]) if q[1] else q[0]
         if ir.get('stuck'):
             return 'model compiler stuck'
@@ -278,20 +271,10 @@ def compare(case, io, mo):
         if iq['answers'] != ir['answers'] or (iq['end'] == 'done' and iq['count'] != ir['count']):
             return 'query %s: implementation answers differ from the compiled-code model (impl %d answers, model %d)' % (qtxt, iq['count'], ir['count'])
         if ir['answers'] != sld['answers'] or ir['count'] != sld['count']:
-            # Sld.solve is an auxiliary, independently written reference (the proved chain is Machine = solveA ~ solveR).
-            # It binds a goal's unbound variable to the clause's fresh variable where the compiled code merely names the
-            # argument, so under findall - whose model renames variables created inside the goal apart per answer - the
-            # two may differ in the IDENTITY of unbound variables inside collected instances; nothing else may differ.
-            # Once such an instance meets a non-variable bag, or a later goal looks at the variable, the difference in identity
-            # becomes a difference in answers; a case that is evaluated with the third view (SldR.solveR: the reference of the
-            # proved chain, which keeps the caller's variable) is judged by that view instead.
-            fa = 'findall' in source_of(case) or q[0] == 'findall'
-            if fa and case.get('sld_aux_only'):
-                pass        # larger programs with non-variable bags: no third view (solveR is slow on bushy searches), Sld.solve not judged
-            elif fa and sldr is not None and not sldr.get('err') and not sldr.get('stuck') and ir['answers'] == sldr['answers'] and ir['count'] == sldr['count']:
-                pass
-            elif not (fa and ir['count'] == sld['count'] and anon_vars(ir['answers']) == anon_vars(sld['answers'])):
-                return 'query %s: compiled-code model and SLD reference differ (%d vs %d answers)' % (qtxt, ir['count'], sld['count'])
+            # Sld.solve is an auxiliary, independently written reference (the proved chain is Machine = solveA ~ solveR).  Since
+            # findall/3 collects copies (D27) the identity of variables inside collected instances is no longer observable, so the
+            # two must agree on every query (answers are compared with unbound variables renamed by first occurrence).
+            return 'query %s: compiled-code model and SLD reference differ (%d vs %d answers)' % (qtxt, ir['count'], sld['count'])
         if sldr is not None and not sldr.get('err') and (ir['answers'] != sldr['answers'] or ir['count'] != sldr['count']):
             return 'query %s: compiled-code model and renamed-apart SLD reference (SldR.solveR) differ (%d vs %d answers) - this contradicts a proved theorem: harness bug' % (qtxt, ir['count'], sldr['count'])
     return None
@@ -303,10 +286,6 @@ def compare_parts(case, io, mo):
     for qi, vs in zip(compared_queries(case, io), views):
         iq = io['queries'][qi]
         ir, sld = vs[0], vs[1]
-        if iq.get('findall_inner'):
-            iq = dict(iq, answers=anon_vars(iq['answers']))
-            ir = dict(ir, answers=anon_vars(ir['answers'])) if 'answers' in ir else ir
-            sld = dict(sld, answers=anon_vars(sld['answers'])) if 'answers' in sld else sld
         if ir.get('stuck') or ir.get('err') or sld.get('err'):
             continue
         if iq['answers'] != ir['answers'] or (iq['end'] == 'done' and iq['count'] != ir['count']): a = True
@@ -358,7 +337,7 @@ def stats(cases, obs):
             if iq.get('findall_inner'):
                 d['queries_where_findall_collected_inner_variables'] += 1
             if iq.get('findall_shared'):
-                d['queries_not_compared_with_the_model_because_answers_share_an_inner_variable'] = d.get('queries_not_compared_with_the_model_because_answers_share_an_inner_variable', 0) + 1
+                d['queries_where_two_findall_answers_share_an_inner_variable'] = d.get('queries_where_two_findall_answers_share_an_inner_variable', 0) + 1
             n = iq['count']
             k = '0' if n == 0 else '1' if n == 1 else '2-5' if n <= 5 else '6+'
             d['answers_hist'][k] += 1
